@@ -114,13 +114,15 @@ def run(chk, scratch):
             elif mode == "read_id":
                 extra += ["--read_group", "read_id:_"]
             else:
-                tbl = os.path.join(d, "groups.tsv")
+                # the table in one of three layouts: read<TAB>group (columns 0:1), group<TAB>read (1:0), read,barcode,group (0:2, comma)
+                layout = (seed + hs) % 3
+                tbl = os.path.join(d, "groups.tsv" if layout < 2 else "groups.csv")
                 with open(tbl, "w") as f:
-                    f.write("#read\tgroup\n")
+                    f.write(("#read\tgroup\n", "#group\tread\n", "#read,barcode,group\n")[layout])
                     for name, g in truth.items():
                         if g != "NA":
-                            f.write("%s\t%s\n" % (name, g))
-                extra += ["--read_group", "file:%s:0:1" % tbl]
+                            f.write(("%s\t%s\n" % (name, g), "%s\t%s\n" % (g, name), "%s,ACGT%d,%s\n" % (name, len(name), g))[layout])
+                extra += ["--read_group", ("file:%s:0:1" % tbl, "file:%s:1:0" % tbl, "file:%s:0:2:," % tbl)[layout]]
         out = os.path.join(d, "out")
         if mode == "file" and hs in (7, 9):
             # the run is killed while the read -> group table is being split per chromosome (right after the second file of that stage
